@@ -2,7 +2,7 @@
    evaluated on abstract programs next to what the implementation produced for the same source.
    Imports Model / Spec / Base only. *)
 From Coq Require Import ZArith List String Ascii Bool NArith.
-From Verif Require Import Base.Res Spec.PDP11 Spec.Arith Model.Insns Model.Directives Model.Asm Run.Show.
+From Verif Require Import Base.Res Spec.PDP11 Spec.Arith Model.Insns Model.Directives Model.Asm Model.AsmT Model.AsmRel Run.Show.
 From Verif Require Spec.DataSpec Model.Rad50.
 Import ListNotations.
 Notation length := Datatypes.length.
@@ -27,7 +27,18 @@ Inductive obs : Type := ObsOk (base : Z) (image : list Z) | ObsFailed | ObsOther
 Definition case : Type := (program * obs)%type.
 
 (* the codec of the runs: pdpy11's bk charset (C14's model) *)
-Definition run_full (p : program) : xres full := assemble_full bk_enc p.
+(* Model/Asm.v first; when it cannot evaluate a count because a label is not laid out yet, Model/AsmRel.v (counts
+   that are constants over the address polynomials of the later labels) *)
+Definition run_full (p : program) : xres full :=
+  match assemble_full bk_enc p with
+  | XUnsup w =>
+      if String.eqb w "label-not-laid-out-yet"
+      then match assemble_rel_full bk_enc p with XUnsup _ => XUnsup w | r => r end
+      else XUnsup w
+  | r => r
+  end.
+Definition rel_used (p : program) : bool :=
+  match assemble_full bk_enc p, run_full p with XUnsup _, XUnsup _ => false | XUnsup _, _ => true | _, _ => false end.
 
 (* ---- Spec-level facts the implementation's image has to satisfy ------------------------------- *)
 Definition soperand_eqb (a b : soperand) : bool :=
@@ -105,7 +116,7 @@ Definition why_code (w : string) : N :=
 (* bit 0: model <> implementation; bit 1: the implementation's image contradicts the Spec;
    bit 2: the model says Unsupported (then bits 5.. carry the reason); bit 3: the model crashed or ran
    out of fuel (never expected) *)
-Definition judge (c : case) : N :=
+Definition judge0 (c : case) : N :=
   let '(p, o) := c in
   match run_full p with
   | XUnsup w => (4 + 32 * why_code w)%N
@@ -121,5 +132,78 @@ Definition judge (c : case) : N :=
       end
   end.
 
+(* bit 12: the program is in the syntactic class of R_supported; bit 13: assembled through Model/AsmRel.v *)
+Definition judge (c : case) : N :=
+  (judge0 c + (if supported (fst c) then 4096 else 0) + (if rel_used (fst c) then 8192 else 0))%N.
+
 (* for replay / debugging: what the model produced *)
 Definition show (p : program) : xres (Z * list Z * symtab) := assemble bk_enc p.
+
+(* ---- the whole-program laws (Props/R.v: R_move_def, R_repeat_unroll, R_insert_is_bytes, R_end_cuts) ------
+   one case: the abstract program p (converted from the source), the abstract program p2 converted from the
+   source TRANSFORMED AS TEXT by the harness, the law with its positions, and what the implementation did with
+   the two sources.  For LCut the first source is the one with `.end` put in front of the rest. *)
+Definition res3 : Type := xres (Z * list Z * symtab).
+
+Definition sym_eqb (a b : key * Z) : bool := key_eqb (fst a) (fst b) && (snd a =? snd b).
+
+Definition res_exact (r r' : res3) : bool :=
+  match r, r' with
+  | XOk (b, i, T), XOk (b', i', T') => (b =? b') && list_eqb Z.eqb i i' && list_eqb sym_eqb T T'
+  | XErr _, XErr _ => true
+  | XUnsup _, XUnsup _ => true
+  | _, _ => false
+  end.
+
+Definition look_sub (T T' : symtab) : bool :=
+  forallb (fun kv => match klookup (fst kv) T, klookup (fst kv) T' with
+                     | Some a, Some b => a =? b | _, _ => false end) T.
+
+(* same_outcome of Proofs/AsmMove.v, as a boolean *)
+Definition res_same (r r' : res3) : bool :=
+  match r, r' with
+  | XOk (b, i, T), XOk (b', i', T') => (b =? b') && list_eqb Z.eqb i i' && look_sub T T' && look_sub T' T
+  | XOk _, _ | _, XOk _ => false
+  | _, _ => true
+  end.
+
+Definition agrees (r : res3) (o : obs) : bool :=
+  match r with
+  | XOk (b, i, _) => match o with ObsOk b' i' => (b =? b') && list_eqb Z.eqb i i' | _ => false end
+  | XErr _ => match o with ObsFailed => true | _ => false end
+  | _ => false
+  end.
+
+Definition is_unsup (r : res3) : bool := match r with XUnsup _ => true | _ => false end.
+
+Definition obs_same (o o' : obs) : bool :=
+  match o, o' with
+  | ObsOk b i, ObsOk b' i' => (b =? b') && list_eqb Z.eqb i i'
+  | ObsFailed, ObsFailed => true
+  | _, _ => false
+  end.
+Definition obs_known (o : obs) : bool := match o with ObsOther => false | _ => true end.
+
+Definition law_case : Type := (program * program * law * obs * obs)%type.
+
+(* bit 0  model <> implementation on one of the two sources
+   bit 1  the REAL CODE violates the law (hypotheses hold, the two sources do not assemble alike)
+   bit 2  the hypotheses of the law do not hold of this case (nothing judged)
+   bit 3  the Gallina transformation of p does not assemble exactly like the converted transformed text
+   bit 4  the MODEL violates the law (never expected: it is a theorem)
+   bit 5  the model answers Unsupported for one of the programs (nothing judged) *)
+Definition judge_law (c : law_case) : N :=
+  let '(p, p2, l, o1, o2) := c in
+  match apply_law l p with
+  | None => 8%N
+  | Some tp =>
+      if negb (law_hyps l p) then 4%N else
+      let before := match l with LCut _ => tp | _ => p end in
+      let after := match l with LCut k => firstn k p ++ [End] | _ => tp end in
+      let rb := show before in let ra := show after in let r2 := show p2 in
+      if is_unsup rb || is_unsup ra || is_unsup r2 then 32%N else
+      ((if agrees rb o1 && agrees r2 o2 then 0 else 1)
+       + (if obs_known o1 && obs_known o2 && negb (obs_same o1 o2) then 2 else 0)
+       + (if res_exact ra r2 then 0 else 8)
+       + (if res_same rb ra then 0 else 16))%N
+  end.
